@@ -91,6 +91,9 @@ for i,m in enumerate(METHODS):
 for a,b in [(5,0),(0,1),(2,3),(8,5)]:
     c08.append(job(f"seq-{METHODS[a]}-{METHODS[b]}",".","VH_ClientCmd",["C08/"],{"method":a,"method2":b,"unsol":1,"trans":0,"bad":1},T,
        bounds=f"{METHODS[a]} then {METHODS[b]} (kernel queue drained in between)"))
+for m in ("GetStatus","GetRules","DeleteRules"):
+    c08.append(job("cmd-"+m+"-mid",".","VH_ClientCmd",["C08/"],{"method":METHODS.index(m),"unsol":0,"trans":0,"bad":0,"mid":1},Q,
+       bounds=f"{m}: a transient failure (EINTR|EAGAIN) or an unsolicited record between the ACK and the data, between data messages and before the end-of-list message; symbolic errno"))
 # one client, two commands: what the second returns must not depend on what the first returned
 for a,b in [(1,1),(1,4),(4,1),(4,4),(0,0),(1,0),(0,4),(3,1),(2,1)]:
     c08.append(job(f"seq-{METHODS[a]}-{METHODS[b]}",".","VH_ClientCmd",["C08/"],{"method":a,"method2":b,"unsol":0,"trans":0,"bad":0},Q,
